@@ -135,7 +135,7 @@ CHECKS = {
   technique="runtime monitoring: differential run of the real ovnisort against a stable sort of the original event list (independent decoder), plus idempotence, check mode and emulator acceptance",
   text="Traces of 1-3 streams built from a sorted base of uniquely numbered events with many equal clocks and 1-8 OU[ OU] "
        "regions (0-20 normal and jumbo events, internally sorted or not, belonging up to 2000 events back or entirely in the "
-       "future, clock gaps of several seconds, also into a previous region and at the start) are sorted by the real ovnisort with look-back windows from just above the "
+       "future, clock gaps of several seconds, also into a previous region, at the start and before the first event of the stream) are sorted by the real ovnisort with look-back windows from just above the "
        "needed depth (the ring wraps and is rebuilt) to the default. Exit 0 is required and the decoded result must "
        "equal the stable sort by clock of the original list (permutation, bytes, order and tie stability in one "
        "comparison), same size; a second run must change nothing, ovnisort -c and ovniemu -l must accept. Streams whose "
@@ -152,7 +152,8 @@ CHECKS = {
        "thorough tier, with empty payload and with the payload sizes listed for that category) is run as a one-event "
        "probe and must be rejected unless it falls in the carve-outs (OB?, OU?, legacy codes accepted with a warning "
        "naming them); the ovnidump line of every listed event with PRNG argument values must equal an independent "
-       "implementation of the %{name} / %fmt{name} substitution.",
+       "implementation of the %{name} / %fmt{name} substitution, alone and inside soups of listed and unlisted codes "
+       "(repeated back to back, two streams) where every unlisted code must be printed as UNKNOWN.",
   note="Quick tier probes every code of the categories that exist plus a sample of the others. Legal contexts come from "
        "the frozen table spec/events.json."),
  "C08": dict(
@@ -200,13 +201,13 @@ CHECKS = {
        "{null,1,2,3} to depth 4/5 for 1-4 inputs, plus random sequences with up to 64 inputs, 64-bit values and several "
        "inputs changing in one propagation. After each propagation the outputs must be the ascending sort of the inputs "
        "(null as 0) and, for single-input changes, exactly the outputs whose value changed may have been written. (B) "
-       "nOS-V and Nanos6 histories in the runtime's shape (tasks of several types, pauses inside an API/blocking region, "
-       "subsystems, idle states, thread pauses and migrations, 2-6 CPUs) are emulated with -b; after every event the "
+       "nOS-V and Nanos6 histories (tasks of several types, pauses inside an API/blocking region as the runtimes do or "
+       "bare, subsystems, idle states, thread pauses and migrations, 2-18 CPUs) are emulated with -b; after every event the "
        "breakdown rows read top to bottom must equal the sorted per-physical-CPU values computed from the same run's "
        "cpu.prv (task type in a task body, else subsystem, else Unknown subsystem; the idle value when not Progressing), "
        "and every breakdown value must be labelled.",
-  note="Bare task histories that leave a CPU 'in a task body without a task' are ambiguous and not generated. Rewrites "
-       "of unchanged rows are invisible in the .prv (duplicate suppression) and are decided on the module."),
+  note="A CPU 'in a task body without a task' (bare pause) has no task type and is judged as 'otherwise the subsystem'. "
+       "Rewrites of unchanged rows are invisible in the .prv (duplicate suppression) and are decided on the module."),
  "C09": dict(
   cat="fault_enumeration", ref="DESIGN.md section 3, C09",
   technique="runtime monitoring with crash injection: strace SIGKILL on entry to every file system call of the runtime (enumerated from a baseline of the same deterministic run), final directory decoded and compared with the client-boundary flush log, ovniemu verdict",
